@@ -101,7 +101,12 @@ class ActionContext(abc.ABC):
             return WatchResult(source, watch, variable_id), var_processor.var_lookup, log_str
         except BaseException as e:
             logging.exception("Error evaluating watch %s", watch)
-            return WatchResult(source, watch, None, str(e)), {}, str(e)
+            try:
+                error = str(e)
+            except BaseException:
+                # the exception is one of the application's, its own __str__ can fail too
+                error = type(e).__name__
+            return WatchResult(source, watch, None, error), {}, error
 
     def process_capture_variable(self, name: str, variable: any) -> Tuple[WatchResult, Dict[str, Variable], str]:
         """
